@@ -24,329 +24,21 @@ import (
 	"golang.org/x/tools/imports"
 )
 
-type c17Case struct {
-	name    string
-	patch   string
-	marker  string // identifier whose occurrences are the candidate sites
-	src     string
-	imports bool   // the patch adds or removes an import: import declarations count as rewritten when anything matched
-	fixed   string // a function the patch always rewrites (second change of a two-change patch)
-}
-
-var c17Cases = []c17Case{
-	{name: "expr-in-funcs", marker: "old",
-		patch: "@@\nvar x expression\n@@\n-old(x)\n+new(x)\n",
-		src: `// Copyright header.
-// Second header line.
-
-//go:build linux
-
-// Package p is documented.
-package p // trailing the package clause
-
-import "fmt" // why fmt
-
-// free-standing comment after the imports
-
-// a is documented.
-// On two lines.
-func a() int {
-	// leading comment in a
-	v := old(1) // end of line at the site
-	// between statements in a
-	return v /* block in a */ + 1
-} // trailing a
-
-// free-standing comment between a and b
-
-// b is documented.
-func b() {
-	fmt.Println(old( /* inside the call */ 2)) // eol b
-	// last comment in b
-}
-
-/* block doc of c */
-func c() int { return old(3) } // eol c
-
-//go:generate echo hi
-
-// d is documented.
-func d() (r int) {
-	defer func() {
-		// inside closure
-		r = old(4)
-	}()
-	return
-}
-
-// trailing file comment
-`},
-	{name: "stmt-delete", marker: "old",
-		patch: "@@\nvar f identifier\nvar x expression\n@@\n func f() {\n   ...\n-  old(x)\n   ...\n }\n",
-		src: `package p
-
-// a doc
-func a() {
-	// before site
-	old(1) // eol at deleted statement
-	// after site
-	keep()
-}
-
-// between a and b
-
-// b doc
-func b() {
-	keep() // eol keep
-	old(2)
-}
-
-// c doc
-func c() {
-	old(3)
-	// only a comment left
-}
-
-// d doc
-func d() { /* empty d */ }
-`},
-	{name: "decl-replace", marker: "Old",
-		patch: "@@\n@@\n-type Old struct{}\n+type Old struct{ n int }\n",
-		src: `package p
-
-// v doc
-var v = 1 // eol v
-
-// Old is documented.
-type Old struct{} // eol first
-
-// between the two
-
-// w doc
-var w = func() int {
-	// inside w
-	return 2
-}
-
-// second doc
-type Old struct{}
-
-// z doc
-const z = 3 // eol z
-`},
-	{name: "elision-block", marker: "old",
-		patch: "@@\nvar f identifier\n@@\n func f() {\n   ...\n-  old()\n+  new()\n   ...\n }\n",
-		src: `package p
-
-// a doc
-func a() {
-	// a first
-	pre() // eol pre
-	old() // eol site
-	// a last
-	post()
-}
-
-// b doc
-func b() {
-	old()
-}
-
-// between b and c
-
-// c doc
-func c() {
-	// c only
-	pre()
-	old()
-}
-`},
-	{name: "add-import", marker: "old", imports: true,
-		patch: "@@\nvar x expression\n@@\n+import \"errors\"\n\n-old(x)\n+errors.New(x)\n",
-		src: `// header
-package p
-
-// a doc
-var a = old("x") // eol a
-
-// b doc
-var b = func() error {
-	// inside b
-	return nil
-}
-
-// c doc
-var c = old("y")
-
-// d doc
-func d() error {
-	// inside d
-	return old("z") // eol d
-}
-`},
-	{name: "delete-import", marker: "New", imports: true,
-		patch: "@@\nvar x expression\n@@\n-import \"errors\"\n\n-errors.New(x)\n+fail(x)\n",
-		src: `// header
-package p
-
-import "errors" // the only import
-
-// a doc
-var a = errors.New("x") // eol a
-
-// b doc
-var b = func() int {
-	// inside b
-	return 1
-}
-
-// c doc
-var c = errors.New("y")
-
-// d doc
-var d = 2 // eol d
-`},
-	{name: "decl-kind-change", marker: "old",
-		patch: "@@\n@@\n-func old() {}\n+var old = func() {}\n",
-		src: `// header k
-//go:build !ignore
-
-// Package p doc k.
-package p
-
-import "fmt" // eol import k
-
-// first doc
-func old() {}
-
-// u doc
-func u() {
-	// inside u
-	fmt.Println() // eol u
-}
-
-// middle doc
-func old() {} // eol middle
-
-// w doc
-var w = 1 // eol w
-
-// last doc
-func old() {}
-`},
-	{name: "import-group", marker: "New", imports: true,
-		patch: "@@\nvar x expression\n@@\n-import \"errors\"\n\n-errors.New(x)\n+fail(x)\n",
-		src: `// header g
-package p // eol package g
-
-// after package g
-
-import (
-	"bytes" // eol bytes
-	// above errors
-	"errors"
-)
-
-// a doc g
-var a = errors.New("x") // eol a g
-
-// b doc g
-var b bytes.Buffer // eol b g
-`},
-	{name: "import-group-first", marker: "New", imports: true,
-		patch: "@@\nvar x expression\n@@\n-import \"errors\"\n\n-errors.New(x)\n+fail(x)\n",
-		src: `// header h
-package p
-
-import (
-	"errors"
-	"os" // eol os
-)
-
-// a doc h
-func a() error {
-	// inside a h
-	return errors.New(os.Args[0])
-}
-
-// b doc h
-func b() {} // eol b h
-`},
-	{name: "first-decl-kind-change", marker: "old",
-		patch: "@@\n@@\n-func old() {}\n+var old = func() {}\n",
-		src: `package p // trailing the clause f
-
-func old() {}
-
-// keep doc f
-func keep() {}
-`},
-	{name: "single-line-imports", marker: "New", imports: true,
-		patch: "@@\nvar x expression\n@@\n-import \"errors\"\n\n-errors.New(x)\n+fail(x)\n",
-		src: `package p
-
-import "a" // why a
-import "errors"
-import "b" // why b
-
-var _ = a.A + b.B
-
-// e doc s
-var e = errors.New("x") // eol e s
-`},
-	{name: "directive-neighbours", marker: "old",
-		patch: "@@\n@@\n-func old() {}\n+var old = func() {}\n",
-		src: `package p
-
-//go:generate stringer -type=T
-type T int //nolint:unused
-
-func old() {}
-
-//go:noinline
-func keep() {} //nolint:deadcode
-
-//
-var empty = 1
-
-func old() {}
-
-//line x.go:10
-var z = 2
-`},
-	{name: "two-changes-emptied-group", marker: "old", fixed: "f",
-		patch: "@@\nvar a, b expression\n@@\n-a + b\n+a - b\n\n@@\n@@\n-old(2)\n+renewed(2)\n",
-		src: `package p
-
-// f doc e
-func f() int {
-	return old(2) +
-		// about y
-		y
-}
-
-// g doc e
-func g() int { return old(2) } // eol g e
-`},
-	{name: "two-changes", marker: "old", fixed: "gone",
-		patch: "@@\nvar x expression\n@@\n-old(x)\n+mid(x)\n\n@@\n@@\n-func gone() {}\n+var gone = func() {}\n",
-		src: `package p
-
-// a doc
-func a() { old(1) } // trailing a
-
-// gone doc
-func gone() {}
-
-// b is documented.
-func b() {
-	// inside b
-	old(2)
-}
-
-// c doc
-func c() {} // trailing c
-`},
+// c17PkgGroups: comment groups go/ast attaches to the package clause (the
+// file node or the package name): the file's package comments.
+var c17PkgGroups map[*ast.CommentGroup]bool
+
+func c17FindPkgGroups(fset *token.FileSet, f *ast.File) {
+	c17PkgGroups = map[*ast.CommentGroup]bool{}
+	cm := ast.NewCommentMap(fset, f, f.Comments)
+	for _, cg := range cm[f.Name] {
+		c17PkgGroups[cg] = true
+	}
+	for _, cg := range cm[f] {
+		if cg.End() <= f.Name.End() {
+			c17PkgGroups[cg] = true
+		}
+	}
 }
 
 type c17Comment struct {
@@ -399,6 +91,7 @@ func StubC17ParseFile(fset *token.FileSet, filename string, src any, mode parser
 		_ = i
 	}
 	// ownership of every comment
+	c17FindPkgGroups(fset, f)
 	for _, cg := range f.Comments {
 		for _, c := range cg.List {
 			st.comments = append(st.comments, c17Comment{c: c, text: c.Text, owners: c17Owners(tf, f, st.decls, cg, c)})
@@ -472,7 +165,7 @@ func c17DocOf(d ast.Decl) *ast.CommentGroup {
 // declarations must survive only if both neighbours are untouched (the
 // package clause and the end of the file are never touched).
 func c17Owners(tf *token.File, f *ast.File, decls []ast.Decl, cg *ast.CommentGroup, c *ast.Comment) []int {
-	if c.End() <= f.Name.End() || tf.Line(c.Pos()) == tf.Line(f.Name.End()) {
+	if c.End() <= f.Name.End() || tf.Line(c.Pos()) == tf.Line(f.Name.End()) || c17PkgGroups[cg] {
 		return []int{-1}
 	}
 	for i, d := range decls {
@@ -626,6 +319,7 @@ func ReplayC17Comments() {
 		}
 	}
 	want := map[string]bool{} // text -> must survive
+	c17FindPkgGroups(fset, f)
 	for _, cg := range f.Comments {
 		for _, c := range cg.List {
 			must := true
